@@ -190,6 +190,12 @@ ARRAY_TYPES = [('sign', 'CoseSignature'), ('sign', 'CoseSign'), ('sign', 'CoseSi
                ('encrypt', 'CoseRecipient'), ('encrypt', 'CoseEncrypt'), ('encrypt', 'CoseEncrypt0'),
                ('context', 'PartyInfo'), ('context', 'SuppPubInfo'), ('context', 'CoseKdfContext')]
 
+def pinned_removes(ty):
+    try: t = open(os.path.join(os.path.dirname(os.path.abspath(__file__)), '..', 'pinned', 'CosetGen', 'Facts.lean')).read()
+    except FileNotFoundError: return None
+    m = re.search(r'def %s_removes : List Nat := \[([^\]]*)\]' % ty, t)
+    return [int(x) for x in m.group(1).split(',') if x.strip()] if m else None
+
 def f6(src, st):
     shapes = []
     ok = True
@@ -222,7 +228,12 @@ def f6(src, st):
         seen = []; 
         for f_ in order:
             if f_ not in seen: seen.append(f_)
-        if not conds or not any(i.isdigit() for i, _ in removes):
+        # the positional pattern must be *complete*: the same indices as in the transcribed tree, each as often (in any order).  A
+        # decoder whose removes moved partly into a helper would otherwise be translated into a model that takes out one element
+        # and then misses the others — a mistranslation, not a finding (seen with the `mac` refactoring: DESIGN.md §13).
+        pr = pinned_removes(ty)
+        complete = pr is None or sorted(int(i) for i, _ in removes if i.isdigit()) == sorted(pr)
+        if not conds or not any(i.isdigit() for i, _ in removes) or not complete:
             # the positional-remove pattern is not there (the decoder was rewritten): nothing to translate for this type —
             # its facts fall back to the pinned ones (see fill_from_pinned) and the type is decided by the correspondence alone
             ok = False; st['F6:' + ty] = 'pattern not found'; continue
